@@ -122,10 +122,26 @@ def run_check(pid, tier, modname):
     nproc = int(os.environ.get("VERIF_JOBS", "0") or 0) or min(16, os.cpu_count() or 4)
     results = []
     if nproc > 1 and len(jobs) > 1:
-        ctxm = mp.get_context("fork")
-        with ctxm.Pool(nproc, maxtasksperchild=getattr(mod, "MAXTASKS", 50)) as pool:
-            for r in pool.imap_unordered(_worker, [(modname, j) for j in jobs], chunksize=1):
-                results.append(r)
+        from concurrent.futures import ProcessPoolExecutor, as_completed
+        from concurrent.futures.process import BrokenProcessPool
+
+        pending = list(jobs)
+        attempts = 0
+        while pending and attempts < 3:
+            attempts += 1
+            done_jobs = []
+            try:
+                with ProcessPoolExecutor(nproc, mp_context=mp.get_context("fork")) as ex:
+                    futs = {ex.submit(_worker, (modname, j)): j for j in pending}
+                    for f in as_completed(futs):
+                        results.append(f.result())
+                        done_jobs.append(futs[f])
+            except BrokenProcessPool:
+                # a worker died (e.g. killed for memory): the jobs that did not report are retried, then given up
+                pass
+            pending = [j for j in pending if not any(j is d for d in done_jobs)]
+        for j in pending:
+            results.append({"job": j, "violations": [], "witnesses": [], "inconclusive": ["worker process died while running this job"], "notes": [], "obligations": 0, "stats": {}, "functions": [], "wall_s": 0.0})
     else:
         for j in jobs:
             results.append(_worker((modname, j)))
